@@ -264,7 +264,7 @@ def discharge(check_id, job, pr, out, replay_kind, describe=None, timeout_ms=400
             if v is None:
                 # adaptive: when the in-process solver keeps answering 'unknown' in this job (typically NRA), stop waiting for it
                 streak = out.d.get("inproc_unknown_streak", 0)
-                tmo = timeout_ms if streak < 3 else 250
+                tmo = timeout_ms if streak < 3 else 1200
                 v, model, info = solve.decide(cons + blocked, z3.Not(goal), pr.inputs, timeout_ms=tmo,
                                               ext_timeout_s=ext_timeout_s)
                 out.d["queries"] += 1
@@ -272,6 +272,17 @@ def discharge(check_id, job, pr, out, replay_kind, describe=None, timeout_ms=400
                     out.d["inproc_unknown_streak"] = streak + 1
                 else:
                     out.d["inproc_unknown_streak"] = 0
+                if v == "unknown" and tries == 0:
+                    # every solver gave up within its budget: one more in-process attempt with a long budget and another seed
+                    s3 = z3.Solver()
+                    s3.set("timeout", 30000)
+                    s3.set("random_seed", 17)
+                    s3.add(*(cons + blocked))
+                    s3.add(z3.Not(goal))
+                    out.d["queries"] += 1
+                    if s3.check() == z3.unsat:
+                        v = "unsat"
+                        info = {"solver": "z3-5.1.0(in-process, 30 s retry)", "time_s": 30}
                 if v == "unknown" and tries == 0 and acons is None:
                     # last resort: only the constraints whose symbols all occur in the goal (sound: a subset of the assumptions);
                     # on very long paths the rest is about other candidates and only costs case splits
